@@ -250,8 +250,11 @@ pub fn check_oracle(plane: &Plane, modes: &[u16], rendered: &[Vec<u32>]) -> Vec<
     for (k, m) in modes.iter().enumerate() {
         blendref::blend_many(*m as u32, &backp, &plane.src, op, &mut exp);
         let obs = &rendered[k];
-        if let Some(i) = (0..n).find(|i| !loose_eq(obs[*i], exp[*i])) {
-            let bad = (0..n).filter(|i| !loose_eq(obs[*i], exp[*i])).count();
+        // bit for bit, the colour channels of fully transparent results included (sixth round). Family S is the exception:
+        // where its sparse cel does not reach, the plane's "source" is a stand-in (nothing is blended there at all)
+        let same = |a: u32, b: u32| if plane.family == "S-shifted-sparse-cel" { loose_eq(a, b) } else { a == b };
+        if let Some(i) = (0..n).find(|i| !same(obs[*i], exp[*i])) {
+            let bad = (0..n).filter(|i| !same(obs[*i], exp[*i])).count();
             out.push(
                 Violation::new(
                     format!("blend-mismatch|{}|{}", MODE_NAMES[*m as usize], plane.family),
